@@ -230,5 +230,27 @@ func CheckLocator(hashes []chainhash.Hash, from int, loc []*chainhash.Hash) erro
 	if prev != 0 && len(loc) < wire.MaxBlockLocatorsPerMsg {
 		return fmt.Errorf("locator ends at height %d, not genesis", prev)
 	}
+	// Exactly the documented rule: the start, ten single steps, then the
+	// step doubles before every further entry, clamped to genesis.
+	want := []int{from}
+	for h, step := from, 1; h > 0 && len(want) < wire.MaxBlockLocatorsPerMsg; {
+		if len(want) > 10 {
+			step *= 2
+		}
+		if step > h {
+			h = 0
+		} else {
+			h -= step
+		}
+		want = append(want, h)
+	}
+	if len(want) != len(loc) {
+		return fmt.Errorf("locator has %d entries, the reference locator from height %d has %d", len(loc), from, len(want))
+	}
+	for i, h := range loc {
+		if idx[*h] != want[i] {
+			return fmt.Errorf("locator[%d] is height %d, the reference locator from height %d has %d there", i, idx[*h], from, want[i])
+		}
+	}
 	return nil
 }
